@@ -216,6 +216,10 @@ class GroupbyChunks(Harness):
     functions = ("groupby (get_changes/get_ragged_changes, single-group shortcut)", "join_groupbys", "streamable", "NpDataclassStream",
                  "GenomeContext.iter_chromosomes on a chunked stream")
     CONTIGS = ["1", "11", "2"]         # genome order; "1" is a suffix of "11"
+    CONTIGS_U = ["1", "1_alt", "2"]    # a genome that KEEPS a contig with an underscore in its name (Genome.from_dict keeps every name)
+
+    def _C(self, skel):
+        return self.CONTIGS_U if skel.get("underscore") else self.CONTIGS
     bounds = {"quick": "4 entries with symbolic start/stop on contigs named 1, 11, 2 (genome order): every assignment of the entries to "
                        "1-3 contigs in genome order x every way to cut the stream into chunks (8) x {groupby on the stream, "
                        "iter_chromosomes on the stream}",
@@ -250,6 +254,14 @@ class GroupbyChunks(Harness):
                 if tier == "thorough" or len(chunks) <= 2 or chunks == [1] * n:
                     out.append(dict(n=n, contigs=contigs, chunks=chunks, api="track_sum"))
                     out.append(dict(n=n, contigs=contigs, chunks=chunks, api="track_sum", via="get_data"))
+        # a genome that keeps a contig whose name contains '_': it is a chromosome like the others in every streamed evaluation
+        for contigs in ([0, 1, 2, 2], [0, 0, 2, 2], [1, 1, 1, 1], [0, 2, 2, 2]):
+            contigs = contigs + [contigs[-1]] * (n - 4)
+            for chunks in compositions(n):
+                if tier == "thorough" or len(chunks) <= 2:
+                    out.append(dict(n=n, contigs=contigs, chunks=chunks, api="iter_chromosomes", underscore=True))
+                    out.append(dict(n=n, contigs=contigs, chunks=chunks, api="track_sum", underscore=True))
+                    out.append(dict(n=n, contigs=contigs, chunks=chunks, api="track_sum", via="get_data", underscore=True))
         return out
 
     def inputs(self, skel, V):
@@ -266,13 +278,13 @@ class GroupbyChunks(Harness):
             import bionumpy as bnp
             from bionumpy.datatypes import BedGraph
             from bionumpy.computation_graph import compute
-            names = [(self.CONTIGS + ["zz"])[c] for c in skel["contigs"]]
+            names = [(self._C(skel) + ["zz"])[c] for c in skel["contigs"]]
             pos = [3 * sum(1 for c in skel["contigs"][:i] if c == skel["contigs"][i]) for i in range(n)]     # records of a contig side by side
             chunks, k = [], 0
             for sz in skel["chunks"]:
                 chunks.append(BedGraph(names[k:k + sz], pos[k:k + sz], [p + 2 for p in pos[k:k + sz]], ctx.arr([x[f"w{i}"] for i in range(k, k + sz)], "int64")))
                 k += sz
-            g = bnp.Genome.from_dict({c: 20 for c in self.CONTIGS})
+            g = bnp.Genome.from_dict({c: 20 for c in self._C(skel)})
             track = g.get_track(NpDataclassStream(iter(chunks), dataclass=BedGraph))
             if skel.get("via") == "get_data":      # the bedGraph records of the streamed track, summed here
                 d = compute(track.get_data())
@@ -281,7 +293,7 @@ class GroupbyChunks(Harness):
                     tot = tot + v_ * (int(b_) - int(a_))
                 return dict(total=tot, n_records=len(d))
             return dict(total=ctx.lst(compute(track.sum())))
-        names = [self.CONTIGS[c] for c in skel["contigs"]]
+        names = [self._C(skel)[c] for c in skel["contigs"]]
         starts = [x[f"s{i}"] for i in range(n)]
         stops = [x[f"s{i}"] + x[f"w{i}"] for i in range(n)]
         if skel.get("col") == "str":
@@ -301,7 +313,7 @@ class GroupbyChunks(Harness):
             if skel.get("col") == "encoded":
                 import bionumpy.genomic_data.genome_context as gcm
                 from bionumpy.encoded_array import as_encoded_array
-                col = as_encoded_array(col, gcm.GenomeContext.from_dict({c: 20 for c in self.CONTIGS}).encoding)
+                col = as_encoded_array(col, gcm.GenomeContext.from_dict({c: 20 for c in self._C(skel)}, filter_function=None).encoding)
             chunks.append(Table(col, ctx.arr(starts[k:k + sz], "int64"), ctx.arr(stops[k:k + sz], "int64")))
             k += sz
         stream = NpDataclassStream(iter(chunks), dataclass=Table)
@@ -309,21 +321,21 @@ class GroupbyChunks(Harness):
             groups = [(key, g) for key, g in itertools.islice(groupby(stream, "chromosome"), n + 2)]
         else:
             import bionumpy.genomic_data.genome_context as gcm
-            gc = gcm.GenomeContext.from_dict({c: 20 for c in self.CONTIGS})
-            groups = list(zip(self.CONTIGS, itertools.islice(gc.iter_chromosomes(stream, Interval), 5)))
+            gc = gcm.GenomeContext.from_dict({c: 20 for c in self._C(skel)}, filter_function=None)      # every name is a contig of the genome
+            groups = list(zip(self._C(skel), itertools.islice(gc.iter_chromosomes(stream, Interval), 5)))
         return dict(groups=[(str(key), [nm.to_string() for nm in g.chromosome], ctx.lst(g.start), ctx.lst(g.stop)) for key, g in groups])
 
     def _expected(self, skel):
         """[(contig name, [entry indices])] in stream order"""
         exp = []
         for i, c in enumerate(skel["contigs"]):
-            if exp and exp[-1][0] == self.CONTIGS[c]:
+            if exp and exp[-1][0] == self._C(skel)[c]:
                 exp[-1][1].append(i)
             else:
-                exp.append((self.CONTIGS[c], [i]))
+                exp.append((self._C(skel)[c], [i]))
         if skel["api"] == "iter_chromosomes":
             d = dict(exp)
-            exp = [(c, d.get(c, [])) for c in self.CONTIGS]
+            exp = [(c, d.get(c, [])) for c in self._C(skel)]
         return exp
 
     def _track_ok(self, skel):
@@ -355,8 +367,8 @@ class GroupbyChunks(Harness):
 
     def oracle(self, skel, cx, cout):
         if skel["api"] == "track_sum":
-            names = [(self.CONTIGS + ["zz"])[c] for c in skel["contigs"]]
-            desc = f"bedGraph stream with contigs {names} (genome {self.CONTIGS}) cut into chunks of sizes {skel['chunks']}, values {[cx[f'w{i}'] for i in range(skel['n'])]} on 2 bases each, evaluated through {skel.get('via', 'sum')}"
+            names = [(self._C(skel) + ["zz"])[c] for c in skel["contigs"]]
+            desc = f"bedGraph stream with contigs {names} (genome {self._C(skel)}) cut into chunks of sizes {skel['chunks']}, values {[cx[f'w{i}'] for i in range(skel['n'])]} on 2 bases each, evaluated through {skel.get('via', 'sum')}"
             if isinstance(cout, Exc):
                 return None if not self._track_ok(skel) else f"{desc}: get_track(...).sum() raised {cout}"
             if not self._track_ok(skel):
@@ -364,12 +376,12 @@ class GroupbyChunks(Harness):
             exp = 2 * sum(cx[f"w{i}"] for i in range(skel["n"]))
             return None if float(cout["total"]) == exp else f"{desc}: get_track(...).sum() = {cout['total']}, expected {exp}"
         if isinstance(cout, Exc):
-            return f"{skel['api']} over chunks {skel['chunks']} of contigs {[self.CONTIGS[c] for c in skel['contigs']]} raised {cout}"
+            return f"{skel['api']} over chunks {skel['chunks']} of contigs {[self._C(skel)[c] for c in skel['contigs']]} raised {cout}"
         exp = [(nm, [(cx[f"s{i}"], cx[f"s{i}"] + cx[f"w{i}"]) for i in idx]) for nm, idx in self._expected(skel)]
         got = [(g[0], list(zip(g[2], g[3]))) for g in cout["groups"]]
         names_ok = all(g[1] == [g[0]] * len(g[2]) for g in cout["groups"])
         if got != exp or not names_ok:
-            return (f"{skel['api']} over a stream of contigs {[self.CONTIGS[c] for c in skel['contigs']]} cut into chunks of sizes {skel['chunks']}: "
+            return (f"{skel['api']} over a stream of contigs {[self._C(skel)[c] for c in skel['contigs']]} cut into chunks of sizes {skel['chunks']}: "
                     f"groups {got}{'' if names_ok else ' (with entries of another contig inside)'}, expected {exp}")
         return None
 
